@@ -1114,6 +1114,8 @@ class Interp:
             return list(v)
         if isinstance(v, GenObj):
             return self.run_generator_to_list(v)
+        if isinstance(v, (collections.abc.Iterator, map, zip)) and not is_t(v):
+            return list(v)           # a python iterator / generator handed in by a contract
         if is_t(v) and not isinstance(v.sort, str) and v.sort[0] == "Tup":
             return [smt.TupGet(v, i) for i in range(len(v.sort[1]))]
         if is_t(v) and not isinstance(v.sort, str) and v.sort[0] == "Seq":
